@@ -80,3 +80,74 @@ Proof.
   - unfold FIFOEviction_on_remove, py_in, zmem. cbn [FIFOEviction__order]. destruct (existsb (Z.eqb k) l); cbn; [apply py_remove1_eq|reflexivity].
   - unfold FIFOEviction_evict. cbn. destruct l as [|x r]; cbn; do 2 eexists; split; reflexivity.
 Qed.
+
+(* ------------------------------------------------------------------ *)
+(** * LFUEviction ([_counts] dict, the write-only [_min_count]): the model policy [lfu] *)
+
+Lemma dset_aset d k v : dset d k v = aset k v d.
+Proof. induction d as [|[a b] r IH]; cbn; [reflexivity|]. destruct (a =? k); [reflexivity|]. now rewrite IH. Qed.
+Lemma ddel_adel d k : ddel d k = adel k d.
+Proof. induction d as [|[a b] r IH]; cbn; [reflexivity|]. destruct (a =? k); [reflexivity|]. now rewrite IH. Qed.
+Lemma dfind_aget d k : dfind d k = aget k d.
+Proof. induction d as [|[a b] r IH]; cbn; [reflexivity|]. destruct (a =? k); [reflexivity|]. exact IH. Qed.
+Lemma dmem_aget d k : dmem d k = match aget k d with Some _ => true | None => false end.
+Proof. induction d as [|[a b] r IH]; cbn; [reflexivity|]. destruct (a =? k); cbn; [reflexivity|exact IH]. Qed.
+Lemma dget_aget d k v : aget k d = Some v -> dget d k 0 = v.
+Proof. induction d as [|[a b] r IH]; cbn; [discriminate|]. destruct (a =? k); [intros H; now inversion H|exact IH]. Qed.
+
+Definition lfu_st (q : LFUEviction) : amap * Z := (LFUEviction__counts q, LFUEviction__min_count q).
+
+Lemma lfu_loop (F : option (LFUEviction * option (option Z) * bool) -> Z * Z -> option (LFUEviction * option (option Z) * bool)) m d mc :
+  (forall q r kv, F (Some (q, r, true)) kv = Some (q, r, true)) ->
+  (forall k c, dmem d k = true ->
+     F (Some (mkLFUEviction d mc, None, false)) (k, c)
+     = if c =? m then Some (mkLFUEviction (ddel d k) mc, Some (Some k), true) else Some (mkLFUEviction d mc, None, false)) ->
+  forall l, (forall k c, In (k, c) l -> dmem d k = true) ->
+  fold_left F l (Some (mkLFUEviction d mc, None, false))
+  = Some (match first_with m l with
+          | Some k => (mkLFUEviction (ddel d k) mc, Some (Some k), true)
+          | None => (mkLFUEviction d mc, None, false)
+          end).
+Proof.
+  intros HB HS. induction l as [|[k c] l IH]; intros Hin; cbn [fold_left first_with]; [reflexivity|].
+  rewrite HS by (apply (Hin k c); left; reflexivity). destruct (c =? m).
+  - clear IH. induction l as [|kv l IH2]; cbn [fold_left]; [reflexivity|]. rewrite HB. apply IH2.
+    intros k' c' H. apply (Hin k' c'). destruct H as [H|H]; [left; exact H|right; right; exact H].
+  - apply IH. intros k' c' H. apply (Hin k' c'). right; exact H.
+Qed.
+
+Lemma in_dmem d k c : In (k, c) d -> dmem d k = true.
+Proof.
+  induction d as [|[a b] r IH]; cbn; [tauto|]. intros [H|H].
+  - inversion H; subst. now rewrite Z.eqb_refl.
+  - rewrite (IH H). apply Bool.orb_true_r.
+Qed.
+
+Lemma tie_lfu (q : LFUEviction) k now dr :
+  (exists q', LFUEviction_on_access q k = Some (q', tt) /\ lfu_st q' = p_access lfu k (lfu_st q))
+  /\ lfu_st (fst (LFUEviction_on_insert q k)) = p_insert lfu now k (lfu_st q)
+  /\ lfu_st (fst (LFUEviction_on_remove q k)) = p_remove lfu k (lfu_st q)
+  /\ (exists q' r, LFUEviction_evict q = Some (q', r) /\ (r, lfu_st q', dr) = p_evict lfu now dr (lfu_st q))
+  /\ lfu_st (fst (LFUEviction_clear q)) = p_clear lfu (lfu_st q).
+Proof.
+  destruct q as [d mc]. unfold lfu_st. cbn [p_access p_insert p_remove p_evict p_clear lfu LFUEviction__counts LFUEviction__min_count].
+  repeat split.
+  - unfold LFUEviction_on_access, lfu_access. cbn. rewrite dmem_aget. destruct (aget k d) as [c|] eqn:E; cbn; eexists; (split; [reflexivity|]).
+    + cbn. rewrite (dget_aget d k c E), dset_aset. reflexivity.
+    + reflexivity.
+  - unfold LFUEviction_on_insert. cbn. now rewrite dset_aset.
+  - unfold LFUEviction_on_remove. cbn. now rewrite ddel_adel.
+  - unfold LFUEviction_evict, lfu_evict. cbn [LFUEviction__counts fst snd].
+    destruct d as [|[k0 c0] r] eqn:Ed; [do 2 eexists; split; reflexivity|]. rewrite <- Ed.
+    replace (negb match d with [] => true | _ :: _ => false end) with true by (rewrite Ed; reflexivity).
+    assert (Hm : py_min_list (map snd d) = Some (zmin_list (map snd d))) by (rewrite Ed; reflexivity).
+    rewrite Hm.
+    match goal with |- context [fold_left ?F _ _] => set (F0 := F) end.
+    rewrite (lfu_loop F0 (zmin_list (map snd d)) d mc).
+    + destruct (first_with (zmin_list (map snd d)) d) as [kk|]; cbn.
+      * do 2 eexists. split; [reflexivity|]. cbn. now rewrite ddel_adel.
+      * do 2 eexists. split; reflexivity.
+    + reflexivity.
+    + intros kk c Hk. unfold F0. cbn. destruct (c =? zmin_list (map snd d)); [|reflexivity]. now rewrite Hk.
+    + intros kk c. apply in_dmem.
+Qed.
